@@ -276,6 +276,21 @@ type c18Reply struct {
 	objs vx.M   // list: name -> {k, mk}
 }
 
+// a content accepted by a server (create / update answered 2xx)
+type c18Content struct {
+	scen       int
+	name, kind string
+	mk         int
+}
+
+type c18LastContent struct {
+	mu sync.Mutex
+	c  *c18Content
+}
+
+func (l *c18LastContent) Load() *c18Content   { l.mu.Lock(); defer l.mu.Unlock(); return l.c }
+func (l *c18LastContent) Store(c *c18Content) { l.mu.Lock(); l.c = c; l.mu.Unlock() }
+
 func c18None() vx.M { return vx.M{"k": "none", "mk": 0} }
 
 func c18AllNone() vx.M {
@@ -475,6 +490,7 @@ func TestVerifC18ApiConc(t *testing.T) {
 	defer e.Close()
 	rng := vx.Rand(181)
 	var mkCounter int32
+	var last c18LastContent
 	for sc := 0; sc < nScen; sc++ {
 		base, err := c18Wipe(e)
 		if err != nil {
@@ -504,11 +520,16 @@ func TestVerifC18ApiConc(t *testing.T) {
 				lr := vx.Rand(seed)
 				p := fmt.Sprintf("c%d", c)
 				h := e.handlers[c%len(e.handlers)]
+				// the content (name, kind, marker) this client or - through `last` - any client had accepted last: every now
+				// and then it is sent again as it is (the same PUT twice, an update equal to the created spec, by the same
+				// or by another client, to the same or to the other member): a mutation that leaves the stored content unchanged
+				var mine *c18Content
 				for r := 0; r < R; r++ {
 					name := c18Names[lr.Intn(nNames)]
 					kind := []string{"K1", "K1", "K2"}[lr.Intn(3)]
 					op := opsMix[lr.Intn(len(opsMix))]
 					mk := 0
+					resent := false
 					switch op {
 					case "create", "update":
 						mk = int(atomic.AddInt32(&mkCounter, 1))
@@ -517,13 +538,31 @@ func TestVerifC18ApiConc(t *testing.T) {
 					case "list":
 						kind, name = "none", "-"
 					}
-					w.Emit(vx.M{"ev": "inv", "p": p, "op": op, "n": name, "k": kind, "mk": mk, "member": c % len(e.handlers)})
+					var again *c18Content
+					switch lr.Intn(5) {
+					case 0, 1:
+						again = mine
+					case 2:
+						again = last.Load()
+					}
+					if again != nil && again.scen == sc {
+						op, name, kind, mk, resent = "update", again.name, again.kind, again.mk, true
+						if lr.Intn(6) == 0 {
+							op = "create"
+						}
+					}
+					w.Emit(vx.M{"ev": "inv", "p": p, "op": op, "n": name, "k": kind, "mk": mk, "member": c % len(e.handlers), "resent": resent})
 					rep := c18Do(h, op, name, kind, mk)
 					ver := 0
 					if rep.st == "ok" && (op == "create" || op == "update" || op == "delete") {
 						ver = rep.ver
 					}
-					w.Emit(vx.M{"ev": "ret", "p": p, "op": op, "st": rep.st, "code": rep.code, "ver": ver, "k": rep.k, "mk": rep.mk, "objs": rep.objs})
+					mine = nil
+					if rep.st == "ok" && (op == "create" || op == "update") {
+						mine = &c18Content{scen: sc, name: name, kind: kind, mk: mk}
+						last.Store(mine)
+					}
+					w.Emit(vx.M{"ev": "ret", "p": p, "op": op, "st": rep.st, "code": rep.code, "ver": ver, "k": rep.k, "mk": rep.mk, "objs": rep.objs, "resent": resent})
 					if !hot && lr.Intn(3) == 0 {
 						time.Sleep(time.Duration(lr.Intn(3)) * time.Millisecond)
 					}
